@@ -18,7 +18,7 @@ RULE = ("a shadow ledger of (value, weight) pairs, all inside the bins, is enter
         "(weight, sum, sum2, min, max; mean / variance / std; median after unweighted construction) are compared with math.fsum over the "
         "ledger (rel 1e-9); after subtraction, array arithmetic (free-arithmetics mode) and construction from bare frequencies every "
         "field must be NaN; empty histograms report weight 0 and NaN mean; non-trivial = ledger with >= 3 values, >= 2 entry paths and "
-        ">= 1 addition or rescaling; distinct by hash of the history")
+        ">= 1 addition or rescaling; distinct by hash of the history Plus `narrow_data_case`: values in compact element types (int16 / int32 / float16 / float32, big int64), all-equal values and values at a large offset through five entry routes; variance never negative, std never NaN.")
 ASSUMPTIONS = [
     "values are generated inside the bins (the statement's precondition)",
     "float aggregates compared with relative tolerance 1e-9 scaled by the sum of absolute terms (soundness rule 3.7)",
